@@ -129,6 +129,7 @@ class Render(Unit):
         ctx = S.ctx
         if isinstance(out, np.ndarray):
             out = out[()]
+        sstr.activate_all(sstr.SStr.of(out if isinstance(out, sstr.SStr) else str(out)).cells)
         fix = [c == K.realval(Fraction(CS.env[n])) if c.sort() == z3.RealSort() else c == int(CS.env[n]) for n, c in ctx.inputs.items()]
         r, m = ctx._check(*fix)
         if r != "sat":
